@@ -1,6 +1,8 @@
 pub mod chan_inline;
 pub mod choices;
 pub mod core;
+pub mod ctx_frames;
 pub mod fsim;
+pub mod lanes;
 pub mod rng;
 pub mod simfs;
